@@ -261,17 +261,31 @@ class _SessionRegistry:
         forged token could not have valid AAD in the first place.
         """
         now = time.time()
+        expired: _SessionEntry | None = None
         with self._lock:
             entry = self._entries.get(session_id)
             if entry is None:
                 return None
             if entry.expires_at < now:
                 del self._entries[session_id]
-                self._close_state_suppressed(entry.state)
+                expired = entry
+            elif entry.principal_key != principal_key:
                 return None
-            if entry.principal_key != principal_key:
-                return None
+        if expired is not None:
+            self._close_entry(expired)
+            return None
         return entry
+
+    def is_live(self, session_id: bytes, entry: _SessionEntry) -> bool:
+        """Return whether *entry* is still the registered entry for *session_id*.
+
+        A request looks an entry up and only then acquires its per-session
+        lock; a closer may remove the entry in between.  Callers re-check
+        with this after acquiring ``entry.lock`` so they never dispatch
+        against a session whose close hook has started.
+        """
+        with self._lock:
+            return self._entries.get(session_id) is entry
 
     def close(self, session_id: bytes) -> bool:
         """Remove a session and invoke ``state.close()``. Returns ``True`` on hit."""
@@ -279,7 +293,7 @@ class _SessionRegistry:
             entry = self._entries.pop(session_id, None)
         if entry is None:
             return False
-        self._close_state_suppressed(entry.state)
+        self._close_entry(entry)
         return True
 
     def drain_expired(self, now: float | None = None) -> int:
@@ -290,7 +304,7 @@ class _SessionRegistry:
             expired_sids = [sid for sid, e in self._entries.items() if e.expires_at < now]
             expired = [self._entries.pop(sid) for sid in expired_sids]
         for entry in expired:
-            self._close_state_suppressed(entry.state)
+            self._close_entry(entry)
         return len(expired)
 
     def shutdown(self) -> None:
@@ -304,7 +318,7 @@ class _SessionRegistry:
             entries = list(self._entries.values())
             self._entries.clear()
         for entry in entries:
-            self._close_state_suppressed(entry.state)
+            self._close_entry(entry)
 
     def __len__(self) -> int:
         with self._lock:
@@ -313,6 +327,17 @@ class _SessionRegistry:
     def __iter__(self) -> Iterator[bytes]:
         with self._lock:
             return iter(list(self._entries.keys()))
+
+    def _close_entry(self, entry: _SessionEntry) -> None:
+        """Run the close hook of an entry already removed from the registry.
+
+        The hook runs under the per-session lock (re-entrant for a request
+        that closes its own session), so it never overlaps a request that is
+        still dispatching against the session.  The registry lock is never
+        held here.
+        """
+        with entry.lock:
+            self._close_state_suppressed(entry.state)
 
     @staticmethod
     def _close_state_suppressed(state: object) -> None:
@@ -521,6 +546,17 @@ class _StickyMiddleware:
                     raise SessionLostError(
                         "session not found, expired, or principal mismatch",
                     )
+                # Acquire the per-session RLock for the duration of dispatch.
+                # Released in process_response. Same-session concurrent calls
+                # serialize here; different-session calls run in parallel.
+                entry.lock.acquire()
+                if not self._registry.is_live(session_id, entry):
+                    # Closed (DELETE, in-method close, expiry, shutdown)
+                    # between the lookup and the lock acquisition.
+                    entry.lock.release()
+                    raise SessionLostError(
+                        "session not found, expired, or principal mismatch",
+                    )
             except SessionLostError as exc:
                 # Convert middleware-time SessionLostError into the same
                 # Arrow EXCEPTION-batch response shape that in-dispatch errors
@@ -530,10 +566,6 @@ class _StickyMiddleware:
                 _set_error_response(resp, exc, status_code=HTTPStatus.INTERNAL_SERVER_ERROR)
                 resp.complete = True
                 return
-            # Acquire the per-session RLock for the duration of dispatch.
-            # Released in process_response. Same-session concurrent calls
-            # serialize here; different-session calls run in parallel.
-            entry.lock.acquire()
             req.context.sticky_entry = entry
             req.context.sticky_entry_lock_acquired = True
             session_id_hex = session_id.hex()
@@ -608,14 +640,16 @@ class _StickyMiddleware:
             session_id = bytes.fromhex(sc.session_id)
         except ValueError:
             return False
-        # Release the per-session RLock before removal so process_response's
+        # Remove the session and run its close hook while still holding the
+        # per-session RLock, so a request waiting on the lock cannot dispatch
+        # against the session in between; then release so process_response's
         # release doesn't double-unlock.
+        hit = self._registry.close(session_id)
         entry = getattr(req.context, "sticky_entry", None)
         if entry is not None and getattr(req.context, "sticky_entry_lock_acquired", False):
             with contextlib.suppress(RuntimeError):
                 entry.lock.release()
             req.context.sticky_entry_lock_acquired = False
-        hit = self._registry.close(session_id)
         # Clear the contextvar so subsequent ctx.session reads return None.
         sc_token = getattr(req.context, "sticky_session_token", None)
         if sc_token is not None:
